@@ -41,6 +41,7 @@ func H_ZeroRadius() {
 	vp.Assume(vp.Any(!(rx != 0), !(ry != 0), rx != rx, ry != ry)) // some radius is zero or NaN
 	rot, x, y := vp.F32("rot"), vp.F32("x"), vp.F32("y")
 	large, sweep := vp.Bool("large"), vp.Bool("sweep")
+	vp.Reach("inputs")
 	rel := false // the relative form is H_ZeroRadiusRel (rounded-real reading, moderate magnitudes)
 	z.AbsArcTo(rx, ry, rot, large, sweep, x, y)
 	vp.Reach("drawn")
